@@ -70,14 +70,15 @@ type modelFS struct {
 	cloneLog []cloneOp
 	cloneEmu bool
 	shortWrite int // -1 none; else the crash cuts the write after this many bytes
+	blk        int64
 }
 
 type cloneOp struct {
-	srcOff, length, dstOff value
+	srcOff, length, dstOff int64
 }
 
 func newModelFS() *modelFS {
-	fs := &modelFS{files: map[*value]*mfile{}, crashAt: -1, faults: map[string]map[int]bool{}, calls: map[string]int{}, shortWrite: -1}
+	fs := &modelFS{files: map[*value]*mfile{}, crashAt: -1, blk: 4096, faults: map[string]map[int]bool{}, calls: map[string]int{}, shortWrite: -1}
 	fs.root = fs.newNode(nkDir, 0755|uint32(modeDir))
 	return fs
 }
@@ -96,7 +97,7 @@ const (
 
 func (fs *modelFS) newNode(kind int, mode uint32) *mnode {
 	fs.nextIno++
-	return &mnode{kind: kind, mode: mode, ino: fs.nextIno, uid: int(0), gid: int(0), nlink: 1, blksize: 4096}
+	return &mnode{kind: kind, mode: mode, ino: fs.nextIno, uid: int(0), gid: int(0), nlink: 1, blksize: fs.blk}
 }
 
 type crashPanic struct{}
@@ -1269,3 +1270,84 @@ func (i *interpreter) fsDump() string {
 }
 
 var _ = token.NoPos
+
+// ---------------------------------------------------------------- FICLONERANGE emulation
+
+// cloneRange emulates ioctl(FICLONERANGE) as read from fs/remap_range.c
+// (generic_remap_checks / generic_remap_check_len with remap_flags == 0):
+//   - the file system must support cloning (harness choice, vSetCanClone)
+//   - length 0 means "up to the source's EOF"
+//   - source range must lie inside the source file
+//   - both offsets must be block aligned
+//   - an unaligned length is accepted only if the range ends at the source's EOF
+//     and the destination range ends at or beyond the destination's EOF
+//   - ranges within one file must not overlap
+//   - the destination is extended if the range ends beyond its EOF
+func (i *interpreter) cloneRange(fr *frame, dst, src *mfile, srcOff, length, dstOff int64) int {
+	fs := i.ps.fs
+	if dst == nil || src == nil || dst.closed || src.closed {
+		return eBADF
+	}
+	if !fs.canClone {
+		return eOPNOTSUPP
+	}
+	if src.node.kind != nkFile || dst.node.kind != nkFile {
+		return eINVAL
+	}
+	bs := dst.node.blksize
+	sizeIn, sizeOut := int64(len(src.node.data)), int64(len(dst.node.data))
+	if srcOff < 0 || dstOff < 0 || length < 0 {
+		return eINVAL
+	}
+	if length == 0 {
+		if srcOff > sizeIn {
+			return eINVAL
+		}
+		length = sizeIn - srcOff
+		if length == 0 {
+			return 0
+		}
+	}
+	if srcOff+length > sizeIn {
+		return eINVAL
+	}
+	if srcOff%bs != 0 || dstOff%bs != 0 {
+		return eINVAL
+	}
+	if length%bs != 0 {
+		if srcOff+length != sizeIn || dstOff+length < sizeOut {
+			return eINVAL
+		}
+	}
+	if src.node == dst.node && srcOff < dstOff+length && dstOff < srcOff+length {
+		return eINVAL
+	}
+	i.fsMutate(fr, "clonerange", dst.name)
+	tmp := append([]value(nil), src.node.data[srcOff:srcOff+length]...)
+	i.writeData(dst.node, tmp, dstOff)
+	return 0
+}
+
+func init() {
+	reg(desyncPath+".CloneRange", func(i *interpreter, fr *frame, fn *ssa.Function, a []value) value {
+		dst, src := i.fileOf(fr, a[0]), i.fileOf(fr, a[1])
+		so := i.concInt(fr, a[2], false, "CloneRange srcOffset")
+		ln := i.concInt(fr, a[3], false, "CloneRange srcLength")
+		do := i.concInt(fr, a[4], false, "CloneRange dstOffset")
+		i.ps.fs.cloneLog = append(i.ps.fs.cloneLog, cloneOp{so, ln, do})
+		if e := i.cloneRange(fr, dst, src, so, ln, do); e != 0 {
+			return i.errno(e)
+		}
+		return iface{}
+	})
+	reg(desyncPath+".ioctl", func(i *interpreter, fr *frame, fn *ssa.Function, a []value) value {
+		return i.errno(eOPNOTSUPP)
+	})
+	for _, pfx := range []string{desyncPath + ".", desyncPath + "/cmd/desync."} {
+		reg(pfx+"vSetBlockSize", func(i *interpreter, fr *frame, fn *ssa.Function, a []value) value {
+			i.ps.fs.blk = int64(a[0].(int))
+			return nil
+		})
+		reg(pfx+"vClones", func(i *interpreter, fr *frame, fn *ssa.Function, a []value) value { return len(i.ps.fs.cloneLog) })
+	}
+}
